@@ -62,9 +62,10 @@ def _writePotential(potential, cutoff, gridPoints, meshResolution, out ):
 
   #First, do the energies
   l = []
-  r=0.0
   for i in range(gridPoints):
-    r += meshResolution
+    # k-th grid point is k*delpot: a running sum r += delpot drifts by an ulp every few rows, which puts
+    # rows that should sit exactly on a break point of the potential on its wrong side
+    r = (i+1) * meshResolution
     l.append(_fitField(potential.energy(r)))
 
     if len(l) == 4:
@@ -75,9 +76,8 @@ def _writePotential(potential, cutoff, gridPoints, meshResolution, out ):
 
   #Now, do the forces
   l = []
-  r = 0.0
   for i in range(gridPoints):
-    r += meshResolution
+    r = (i+1) * meshResolution
     l.append(_fitField(_calculateForce(potential, r)))
 
     if len(l) == 4:
